@@ -15,20 +15,21 @@ import (
 // cvc5 --incremental). Declarations are global (survive pop); assertions are
 // scoped.
 type Solver struct {
-	Kind    string // "z3", "z3-new", "cvc5"
-	cmd     *exec.Cmd
-	in      io.WriteCloser
-	out     *bufio.Reader
-	defined map[int]bool
-	ufs     map[string]bool
-	defStk  [][]int    // term ids defined per open scope
-	ufStk   [][]string // uf names declared per open scope
-	store   *TermStore
-	buf     strings.Builder
-	depth   int
-	dead    bool
-	bornAt  int // value of Queries when this process replaced an earlier one
-	Log     io.Writer
+	Kind           string // "z3", "z3-new", "cvc5"
+	cmd            *exec.Cmd
+	in             io.WriteCloser
+	out            *bufio.Reader
+	defined        map[int]bool
+	ufs            map[string]bool
+	defStk         [][]int    // term ids defined per open scope
+	ufStk          [][]string // uf names declared per open scope
+	store          *TermStore
+	buf            strings.Builder
+	depth          int
+	dead           bool
+	DeathIsUnknown bool // a process that ends mid-query (memory limit) counts as unknown, not as an error
+	bornAt         int  // value of Queries when this process replaced an earlier one
+	Log            io.Writer
 
 	// stats
 	Queries   int
@@ -210,15 +211,20 @@ func (s *Solver) Check() string {
 	t0 := time.Now()
 	if err := s.flush(); err != nil {
 		s.dead = true
-		s.Errors++
+		if !s.DeathIsUnknown {
+			s.Errors++
+		}
 		return "unknown"
 	}
 	res := "unknown"
 	for {
 		line, err := s.out.ReadString('\n')
 		if err != nil {
+			// the process ended (for the FP solver: its address-space limit): resource-out
 			s.dead = true
-			s.Errors++
+			if !s.DeathIsUnknown {
+				s.Errors++
+			}
 			break
 		}
 		line = strings.TrimSpace(line)
@@ -227,6 +233,12 @@ func (s *Solver) Check() string {
 		}
 		if line == "sat" || line == "unsat" || line == "unknown" {
 			res = line
+			break
+		}
+		if strings.HasPrefix(line, "(error") && s.DeathIsUnknown && strings.Contains(line, "bad_alloc") {
+			// the FP solver hit its address-space limit: resource-out, and the process is replaced
+			s.dead = true
+			res = "unknown"
 			break
 		}
 		if strings.HasPrefix(line, "(error") {
